@@ -15,8 +15,8 @@ from vlib.common import core
 
 PROP = "C14"
 QUICK_PARENTS = ["schedule2", "loop", "ifelse", "call2", "assignment", "ompparallel", "binop"]
-QUICK_OPS = ["insert", "addchild", "pop", "delitem", "setitem", "extend", "remove", "replace",
-             "setchildren"]
+QUICK_OPS = ["insert", "addchild", "pop", "delitem", "setitem", "extend", "extend_same", "extend_attached", "remove",
+             "replace", "setchildren"]
 
 
 def run_condition(args):
